@@ -216,7 +216,7 @@ func (rw *rewriter) pkgPath(x ast.Expr) string {
 var selMap = map[string]map[string]string{
 	"sync":      {"Pool": "Pool", "Mutex": "Mutex", "RWMutex": "RWMutex", "WaitGroup": "WaitGroup", "Cond": "Cond", "NewCond": "NewCond", "Once": "Once"},
 	"time":      {"Now": "Now", "Since": "Since", "Sleep": "Sleep"},
-	"os":        {"Stat": "OsStat", "ReadFile": "OsReadFile", "WriteFile": "OsWriteFile", "MkdirAll": "OsMkdirAll", "ReadDir": "OsReadDir", "Remove": "OsRemove"},
+	"os":        {"Stat": "OsStat", "ReadFile": "OsReadFile", "WriteFile": "OsWriteFile", "MkdirAll": "OsMkdirAll", "ReadDir": "OsReadDir", "Remove": "OsRemove", "Open": "OsOpen", "Create": "OsCreate", "OpenFile": "OsOpenFile"},
 	"maps":      {"Keys": "MapsKeys", "Values": "MapsValues", "All": "MapsAll"},
 	"math/rand": {"Intn": "RandIntn", "Int31": "RandInt31", "Int31n": "RandInt31n", "Int63": "RandInt63", "Int63n": "RandInt63n", "Int": "RandInt", "Float64": "RandFloat64", "Seed": "RandSeed", "Perm": "RandPerm", "Shuffle": "RandShuffle"},
 }
